@@ -56,7 +56,7 @@ use fuel_core_storage::{
         Coins, ContractsAssets, ContractsLatestUtxo, ContractsRawCode, ContractsState, FuelBlocks, Messages,
         ProcessedTransactions, SealedBlockConsensus, Transactions,
     },
-    transactional::StorageTransaction,
+    transactional::{StorageTransaction, WriteTransaction},
     StorageAsMut, StorageAsRef,
 };
 use fuel_core_types::{
@@ -610,9 +610,13 @@ fn set_progress(tid: u64, v: u64, dbs: &mut Dbs) {
     let (name, on) = task_name(tid);
     let v = usize::try_from(v).expect("usize");
     if on {
-        GenesisProgressMutate::<OnChain>::update_genesis_progress(&mut dbs.on, &name, v).expect("progress row");
+        let mut tx = dbs.on.write_transaction();
+        GenesisProgressMutate::<OnChain>::update_genesis_progress(&mut tx, &name, v).expect("progress row");
+        tx.commit().expect("commit progress row");
     } else {
-        GenesisProgressMutate::<OffChain>::update_genesis_progress(&mut dbs.off, &name, v).expect("progress row");
+        let mut tx = dbs.off.write_transaction();
+        GenesisProgressMutate::<OffChain>::update_genesis_progress(&mut tx, &name, v).expect("progress row");
+        tx.commit().expect("commit progress row");
     }
 }
 
@@ -694,7 +698,7 @@ fn run_c40(input: &T) -> T {
             reader = Some(SnapshotReader::open_w_config(meta, g).expect("open snapshot"));
             dir = Some(d);
             rec_tasks = vec![];
-            ids = vec![0, 1, 2, 3, 4, 5, 6, 13, 14];
+            ids = vec![0, 1, 2, 3, 4, 5, 6, 13, 14, 18];
         }
         let session = |dbs: &Dbs, plan: &Plan| match &reader {
             None => session_recording(&rec_tasks, dbs, plan),
@@ -852,6 +856,7 @@ fn gen_snapshot_spec(rng: &mut Rng, small: bool) -> (T, Vec<(u64, u64)>) {
         (6, ceil_div(n_bal, g)),
         (13, ceil_div(n_msgs, g)),
         (14, ceil_div(n_coins, g)),
+        (18, ceil_div(n_contracts, g)),
     ];
     let spec = T::l(vec![
         T::n(seed),
